@@ -329,7 +329,9 @@ static std::string handle(std::string const& line) {
 		bool inv = s[0][1] == "1"; omp_set_num_threads(std::stoi(s[0][2]));
 		auto sz = sizes(s[1]); DV labs = nums(s[2]), sc = nums(s[3]);
 		NegativeAUC<unsigned int, RealVector> auc(inv);
-		double a = auc.eval(mkData(uints(labs), sz), mkData(rows(sc, sc.size(), 1), sz));
+		// an empty data set cannot be built with createDataFromRange: hand over default-constructed containers
+		double a = labs.empty() ? auc.eval(Data<unsigned int>(), Data<RealVector>())
+		                        : auc.eval(mkData(uints(labs), sz), mkData(rows(sc, sc.size(), 1), sz));
 		o << "a=" << hx(a);
 		return o.str();
 	}
